@@ -80,7 +80,7 @@ def nproblem(p):
     """(Gallina nproblem, python summary used by the independent oracle)"""
     types = [(t.name, t.father.name if t.father is not None else "") for t in p.user_types]
     objects = [(o.name, tname(o.type)) for o in p.all_objects]
-    fluents = [(f.name, [tname(pp.type) for pp in f.signature]) for f in p.fluents]
+    fluents = [(f.name, [(pp.name, tname(pp.type)) for pp in f.signature]) for f in p.fluents]
     acts, acts_json = [], []
     for a in p.actions:
         r = Refs(p)
@@ -123,7 +123,7 @@ def nproblem(p):
                 top.expr(g)
     term = "{| np_types := %s; np_objects := %s; np_fluents := %s; np_actions := %s; np_refs := %s; np_action_refs := %s |}" % (
         glist([gpair(gstr(a), gstr(b)) for a, b in types]), glist([gpair(gstr(a), gstr(b)) for a, b in objects]),
-        glist([gpair(gstr(n), glist([gstr(t) for t in sig])) for n, sig in fluents]), glist(acts), top.render(),
+        glist([gpair(gstr(n), glist([gpair(gstr(pn), gstr(t)) for pn, t in sig])) for n, sig in fluents]), glist(acts), top.render(),
         glist([gstr(x) for x in aref]))
     summ = {"types": types, "objects": objects, "fluents": fluents, "actions": acts_json, "top": top.as_json(), "action_refs": aref}
     return term, summ
@@ -140,7 +140,9 @@ def py_wf(summ):
     tset = set(tn) | {""}
     bad += ["undeclared father type %s" % f for _, f in summ["types"] if f not in tset]
     bad += ["object %s of undeclared type %s" % (o, t) for o, t in summ["objects"] if t == "" or t not in tset]
-    bad += ["fluent %s uses undeclared type" % f for f, sig in summ["fluents"] if any(t not in tset for t in sig)]
+    bad += ["fluent %s uses undeclared type" % f for f, sig in summ["fluents"] if any(t not in tset for _, t in sig)]
+    bad += ["fluent %s: duplicate parameter names %s" % (f, [n for n, _ in sig]) for f, sig in summ["fluents"]
+            if len(set(n for n, _ in sig)) != len(sig)]
     fl = set((f, len(sig)) for f, sig in summ["fluents"])
     ob = set(o for o, _ in summ["objects"])
 
